@@ -10,6 +10,6 @@ open SteelVerif.C13
 #print axioms not_hygiene_b
 #print axioms not_hygiene_c
 #print axioms not_hygiene_d
-#print axioms match_exact_needs_guard_e
-#print axioms collect_panics_e
+#print axioms ellipsis_dotted_tail_fixed
+#print axioms match_exact_needs_nested_guard
 #print axioms match_exact_needs_clean
